@@ -196,6 +196,15 @@ func FirstDiagnostic(stderr string) (text string, line int, ok bool) {
 	if j < 0 {
 		return stderr, 0, false
 	}
+	// the text of the diagnostic: everything up to the end of the line that holds "[line N]"
+	// (run-time diagnostics put the message before it, front-end ones after it)
+	end := i + j + 1
+	if nl := strings.Index(stderr[end:], "\n"); nl >= 0 {
+		end += nl
+	} else {
+		end = len(stderr)
+	}
+	full := stderr[:end]
 	n := 0
 	neg := false
 	for _, c := range stderr[i+6 : i+j] {
@@ -204,14 +213,14 @@ func FirstDiagnostic(stderr string) (text string, line int, ok bool) {
 			continue
 		}
 		if c < '0' || c > '9' {
-			return stderr[:i+j+1], 0, false
+			return full, 0, false
 		}
 		n = n*10 + int(c-'0')
 	}
 	if neg {
 		n = -n
 	}
-	return stderr[:i+j+1], n, true
+	return full, n, true
 }
 
 func digestResults(rs []sim.Result) string {
